@@ -130,7 +130,9 @@ Definition agent0 : agent := Agent [] [] [] [] [].
 
 (* ---------- messages ---------- *)
 Inductive msg :=
-| MRequest (p : proto) (t : th) (pt : inv) (d : did) (dc : option doc)
+| MRequest (p : proto) (t rid : th) (pt : inv) (d : did) (dc : option doc)
+    (* t = the message's thread id (~thread.thid, else @id), rid = its @id: equal in every request an agent of
+       this code base sends *)
 | MResponse (p : proto) (t : th) (d : did) (dc : option doc) (sig : key)
     (* sig: the key the connection~sig of a legacy response verifies under (0 = none / not verifying);
        ignored by DID Exchange *)
@@ -138,7 +140,10 @@ Inductive msg :=
 | MPing (fk tk : key)                            (* an application message; envelope sender / recipient key *)
 | MPingV2 (fd td : did)                          (* the same under a DIDComm v2 envelope: the envelope key ids name
                                                     the sender's and the recipient's DID (getDIDGivenKey) *)
-| MInit (dc : doc) (fk tk : key).                (* an application message whose `from` is did:peer:..?initialState=<dc> *)
+| MInit (dc : doc) (fk tk : key)
+| MRotate (iss sub signer : did) (fk tk : key).
+    (* a DIDComm v2 message with from_prior = JWS{iss -> sub}: `signer` is the DID in whose document the JWS kid
+       is found with a key under which the signature verifies (0 = none) *)                (* an application message whose `from` is did:peer:..?initialState=<dc> *)
 
 Inductive input :=
 | ICreateInv (i : inv) (k : key)
@@ -173,6 +178,13 @@ Definition set_vdr (a : agent) (s : vdr) : agent :=
 Definition set_keys (v : variant) (a : agent) (d : did) (ks : list key) : agent * bool :=
   let '(s, ok) := kput v (a_keyidx a) d ks in
   (Agent (a_vdr a) (a_conns a) (a_thmap a) s (a_invs a), ok).
+Definition set_conns (a : agent) (s : conns) : agent :=
+  Agent (a_vdr a) s (a_thmap a) (a_keyidx a) (a_invs a).
+(* handleInboundRotate: the completed connection (my, iss) now has their = sub *)
+Definition rot_rec (my iss sub : did) (r : conn) : conn :=
+  if st_eqb (c_state r) SCompleted && N.eqb (c_my r) my && N.eqb (c_their r) iss
+  then Conn (c_ns r) (c_th r) (c_state r) (c_my r) sub (c_rk r) else r.
+Definition rot_conns (my iss sub : did) (s : conns) : conns := map (fun p => (fst p, rot_rec my iss sub (snd p))) s.
 Definition with_state (r : conn) (s : st) : conn :=
   Conn (c_ns r) (c_th r) s (c_my r) (c_their r) (c_rk r).
 
@@ -212,13 +224,17 @@ Definition step (v : variant) (a : agent) (i : input) : agent * list out :=
       | None => (set_conn a1 c (with_state r0 SAbandoned), [])
       | Some a2 =>
           (set_conn a2 c (Conn My t SRequested (d_id my) 0 k),
-           [OSend e [k] (MRequest p t i (d_id my) (Some my))])
+           [OSend e [k] (MRequest p t t i (d_id my) (Some my))])
       end
-  | IRecv (MRequest p t pt d dco) c my =>
-      (* inviter.  nextState: the thread (their namespace) must be new *)
-      if negb (can (cur_state a Their t) SRequested) then (a, [OReject]) else
+  | IRecv (MRequest p t0 rid pt d dco) c my =>
+      (* inviter.  nextState looks at the message's thread id: the thread (their namespace) must be new *)
+      if negb (can (cur_state a Their t0) SRequested) then (a, [OReject]) else
       if N.eqb pt 0 then (a, [OReject]) else
-      (* requestMsgRecord + state requested (saved with the thread mapping); action event auto-continued *)
+      (* requestMsgRecord keys the record, the thread mapping and the response on the request's @id.  As found the
+         two ids were never compared; fixed: a request whose thread id differs from its @id is refused *)
+      if (match v with Fixed => negb (N.eqb t0 rid) | AsIs => false end) then (a, [OReject]) else
+      let t := rid in
+      (* state requested (saved with the thread mapping); action event auto-continued *)
       let r0 := Conn Their t SRequested 0 d 0 in
       let a1 := set_th (set_conn a c r0) Their t c in
       let abandoned x := (set_conn x c (with_state r0 SAbandoned), []) in
@@ -304,6 +320,17 @@ Definition step (v : variant) (a : agent) (i : input) : agent * list out :=
           let '(a1, ok) := set_keys v (set_vdr a s) (d_id dc) (d_keys dc) in
           (a1, [if ok then dispatch a1 fk tk else OReject])
       end
+  | IRecv (MRotate iss sub signer fk tk) _ _ =>
+      (* getDIDs from the envelope keys; middleware HandleInboundMessage -> handleInboundRotate: sub must be the
+         sender, the connection (my, iss) must exist, the JWS must verify under a key of iss's document.  A v2
+         message of this type has no handler afterwards: the inbound handler returns an error in every case *)
+      match kget (a_keyidx a) tk, kget (a_keyidx a) fk with
+      | Some my, Some their =>
+          if N.eqb their sub && negb (N.eqb iss 0) && N.eqb signer iss
+          then (set_conns a (rot_conns my iss sub (a_conns a)), [OReject])
+          else (a, [OReject])
+      | _, _ => (a, [OReject])
+      end
   end.
 
 Fixpoint run (v : variant) (a : agent) (is : list input) : agent * list (list out) :=
@@ -326,7 +353,7 @@ Definition completed_at (a : agent) (c : cid) : bool :=
 Definition input_cid (i : input) : option cid :=
   match i with
   | IAcceptInv _ _ _ _ c _ _ => Some c
-  | IRecv (MRequest _ _ _ _ _) c _ => Some c
+  | IRecv (MRequest _ _ _ _ _ _) c _ => Some c
   | _ => None
   end.
 
@@ -334,7 +361,7 @@ Definition input_cid (i : input) : option cid :=
 Definition touches (n : ns) (t : th) (i : input) : bool :=
   match i with
   | IAcceptInv _ _ _ _ _ t' _ => ns_eqb n My && N.eqb t t'
-  | IRecv (MRequest _ t' _ _ _) _ _ => ns_eqb n Their && N.eqb t t'
+  | IRecv (MRequest _ t' _ _ _ _) _ _ => ns_eqb n Their && N.eqb t t'
   | IRecv (MResponse _ t' _ _ _) _ _ => ns_eqb n My && N.eqb t t'
   | IRecv (MComplete _ t') _ _ => ns_eqb n Their && N.eqb t t'
   | _ => false
@@ -345,6 +372,15 @@ Definition touches (n : ns) (t : th) (i : input) : bool :=
    connection ids are drawn by the agent itself and do not repeat *)
 Definition foreign (n : ns) (t : th) (c : cid) (i : input) : Prop :=
   touches n t i = false /\ input_cid i <> Some c.
+
+(* the request's two ids agree (true of every request the code sends; the repaired code refuses the others) *)
+Definition ids_agree (i : input) : Prop :=
+  match i with IRecv (MRequest _ t rid _ _ _) _ _ => rid = t | _ => True end.
+
+(* the input is not a rotation of DID d signed with a key of d's own document: whoever does not hold d's keys
+   (every third party) can only send such inputs *)
+Definition not_rotating (d : did) (i : input) : Prop :=
+  match i with IRecv (MRotate iss _ signer _ _) _ _ => ~ (signer = iss /\ iss = d) | _ => True end.
 
 (* connection id c is not in use *)
 Definition unused (a : agent) (c : cid) : Prop :=
